@@ -165,6 +165,16 @@ EventStep ==
        ELSE /\ TEv.e = "not" /\ TEv.ok = (lastAct' = "NotSucceeds")
     /\ l' = l + 1 /\ UNCHANGED <<runs, verdict, expect, nrej>>
 
+(* A head unification that FAILS is not observable: an engine that skips a clause which cannot   *)
+(* match (first-argument indexing, say) logs no `headfail` for it.  The machine's failing try is   *)
+(* then a silent step.  (A logged `headfail` must still be the machine's: EventStep.)               *)
+HeadFailLogged == More /\ TEv.e = "headfail" /\ TEv.key = KeyText(TN.goal.t) /\ TEv.idx = TN.ruleIdx
+UnloggedHeadFail ==
+    /\ verdict = "ok" /\ Emits /\ WillTryClause /\ ~HeadFailLogged
+    /\ SolverStep
+    /\ lastAct' = "CxHeadFail"
+    /\ UNCHANGED <<l, runs, verdict, expect, nrej>>
+
 (* the machine's next step leaves the claimed fragment (an occurs check would be    *)
 (* needed, a built-in is called outside its documented domain): nothing is said      *)
 (* about what the engine does there, no event is consumed                            *)
@@ -213,7 +223,7 @@ AtEnd    == phase \in {"idle", "outside"} /\ ~More
 Stuck ==
     /\ verdict = "ok"
     /\ ~CanStart /\ ~CanAsk /\ ~CanRet /\ ~CanSilent /\ ~CanSkip /\ ~AtEnd /\ ~CanDie /\ ~CanTrunc
-    /\ ~ENABLED EventStep /\ ~ENABLED OutsideStep
+    /\ ~ENABLED EventStep /\ ~ENABLED OutsideStep /\ ~ENABLED UnloggedHeadFail
     /\ PrintT(<<"REJECTED", [at |-> l, runs_ok |-> runs, exhausted |-> (\E i \in DOMAIN hist : ~hist[i].some),
                              retdiff |-> IF More /\ TEv.e = "ret" /\ phase = "run" /\ stack = <<>>
                                          THEN (IF TEv.some # ret.some THEN "some"
@@ -233,7 +243,7 @@ Finished ==
     /\ verdict' = "done"
     /\ UNCHANGED <<svars, l, runs, expect, nrej>>
 
-TraceNext == StartRun \/ TAsk \/ TRet \/ Silent \/ EventStep \/ OutsideStep \/ SkipRun \/ Died \/ Truncated \/ Stuck \/ Finished
+TraceNext == StartRun \/ TAsk \/ TRet \/ Silent \/ EventStep \/ UnloggedHeadFail \/ OutsideStep \/ SkipRun \/ Died \/ Truncated \/ Stuck \/ Finished
 TraceSpec == TraceInit /\ [][TraceNext]_tvars
 
 (* ---------------- what is checked on the recorded execution ---------------- *)
